@@ -91,6 +91,8 @@ def merge_stream_results(name, results):
         for k, v in r.get('counters', {}).items():
             agg['counters'][k] = max(agg['counters'].get(k, 0), v) if k.startswith('max_') else agg['counters'].get(k, 0) + v
         classes.update(r.get('class_hashes', []))
+        for smp in r.get('samples', [])[:1]:
+            if len(agg['samples']) < 4: agg['samples'].append(smp)
     agg['classes'] = len(classes); agg['failing_observations_same_kind_suppressed'] = supp
     return agg
 
@@ -141,7 +143,7 @@ def stream_families(families, prop, harness='c02_stream', extra_args=()):
             if prop in ('C03', 'C04', 'C05'):
                 agg['evaluations'] = c.get('segments', 0) - c.get('null_segments', 0)      # segments whose structure was checked
                 agg['fonts'] = c.get('fonts', 0)
-            agg['samples'] = [{'family': fam, 'note': 'see gen/progenum.py for the atom alphabet', 'example_program': ['next', 'att-1', 'delete', 'ret-1']}]
+            agg['samples'] = (agg.get('samples') or []) + [{'family': fam, 'note': 'records produced by gen/progenum.py'}]
             results.append(agg)
             for f in d['fails']:
                 fp = f.get('prop')
@@ -180,7 +182,7 @@ def stream_simple(name, producer_script, harness):
     def step(tier, ENV, build, run_binary):
         work = ENV['VERIF_WORK']
         res, fails = run_stream(ENV, ['python3', os.path.join(ROOT, 'gen', producer_script), tier, '{shard}', '{nshards}'], os.path.join(os.path.dirname(work), 'asan', harness), ['--tier', tier, '--sub', name, '--deadline', '150' if tier == 'quick' else '1200'])
-        agg = merge_stream_results(name, res); agg['samples'] = [{'producer': 'gen/' + producer_script}]
+        agg = merge_stream_results(name, res); agg['samples'] = (agg.get('samples') or []) + [{'producer': 'gen/' + producer_script}]
         c = agg.get('counters', {})
         for key in ('shapings_compared', 'segments_compared'):
             if key in c: agg['states'] = c[key]; agg['transitions'] = c[key]; agg['validated'] = c[key]
